@@ -5,9 +5,9 @@
            (irc, zrc, scr, sca, scn, scj, str, strRetransmit, sta, tlu, tld, tls, tlf, nextID,
            startTimer, stopTimer) is one Gallina function of the same name; every Go `switch
            f.state` is one Gallina `match st f`.  The model carries a [variant]:
-             Defective = what fsm.go does today,
-             Repaired  = fsm.go with fixes/C05_fsm_rfc1661_cells.patch and
-                         fixes/C05_ncp_lcp_only_codes.patch applied
+             Defective = fsm.go before the fixes d6fc4b1 / 488e192 (kept for the _refuted witnesses),
+             Repaired  = fsm.go of /repo HEAD (both fixes in); the two findings still open on HEAD are
+                         not in [step]: see [restore] (flag) and [raw_timeout]
            (they differ in the places marked  (* CELL *)  below and nowhere else).
    Part 2: an independent transcription of the RFC 1661 section 4.1 state transition table
            (from the RFC text, not from the code) and the classification of a concrete
@@ -695,7 +695,7 @@ Definition count_acts (p : Act -> bool) (t : list Item) : nat :=
 Definition waiting (s : St) : bool :=       (* the states in which the restart timer must run *)
   match s with Closing | Stopping | ReqSent | AckRcvd | AckSent => true | _ => false end.
 
-(* the cells in which today's code departs from the table *)
+(* the cells in which fsm.go departed from the table before d6fc4b1 *)
 Definition bad_cells : list (St * REv) :=
   [ (Closing, ROpen); (AckSent, RCA); (AckSent, RCN); (AckRcvd, RTR); (AckSent, RTR);
     (AckRcvd, RTA); (AckSent, RTA); (Closed, RXJm); (Stopped, RXJm); (Closing, RXJm);
